@@ -130,14 +130,26 @@ impl ArgPatternArm {
     }
 
     fn render_success_arm(&self, global_guards: &[TokenStream]) -> proc_macro2::TokenStream {
-        let mut concatenated_guards = Vec::from_iter(global_guards);
-
         let local_guards = self
             .arg_matchers
             .iter()
             .filter_map(|m| m.render_guard())
             .collect::<Vec<_>>();
 
+        // The user's guard is an arbitrary expression: parenthesize it before
+        // and-ing it with the eq!/ne! guards, so that e.g. `a || b` keeps its meaning.
+        let parenthesized_global_guards = global_guards
+            .iter()
+            .map(|guard| {
+                if local_guards.is_empty() {
+                    guard.clone()
+                } else {
+                    quote! { (#guard) }
+                }
+            })
+            .collect::<Vec<_>>();
+
+        let mut concatenated_guards = Vec::from_iter(&parenthesized_global_guards);
         concatenated_guards.extend(&local_guards);
 
         let if_guard = if !concatenated_guards.is_empty() {
